@@ -61,7 +61,7 @@ func (r *Report) Add(key string, n int64) { r.Counts[key] += n }
 
 // Distinct records a distinct non-trivial case by its key.
 func (r *Report) Distinct(key string) { r.nontrivial[key] = true }
-func (r *Report) NDistinct() int     { return len(r.nontrivial) }
+func (r *Report) NDistinct() int      { return len(r.nontrivial) }
 
 func (r *Report) Sample(s interface{}) {
 	if len(r.Samples) < 12 {
